@@ -276,7 +276,9 @@ func Replay(f core.Failure) (string, string) {
 		if m, ok := ex["mode"].(string); ok {
 			mode = m
 		}
-		if vs, ok := ex["vectors"].([]any); ok {
+		if vs, ok := ex["vectors"].([][]string); ok { // in-process (the replay file holds []any)
+			vectors = vs
+		} else if vs, ok := ex["vectors"].([]any); ok {
 			for _, v := range vs {
 				var vec []string
 				for _, x := range v.([]any) {
